@@ -89,6 +89,7 @@ fn corpus_case(seed: u64, i: u64) -> (ConvCase, Vec<usize>, String) {
             finish: Finish::Respond { status: 200, body_len: *rng.pick(&[0usize, 10, 2000]), declared: true, threshold: None, max_piece: 100000 },
             pre_delay_us: 0,
             zero_read_after: None,
+            read_api: ReadApi::Read,
         };
         p.push_valid(&a, &wire_body, designated, LenExp::Any, plan, label);
     }
@@ -265,6 +266,7 @@ fn run_response_case(ctx: &Ctx, env: &Env, cs: u64) {
         },
         pre_delay_us: if behaviour == 0 { 3000 } else { 0 },
         zero_read_after: None,
+            read_api: ReadApi::Read,
     };
     let flabel = plan.finish_label();
     p.push_valid(&a, &[], Vec::new(), LenExp::Any, plan, "resp");
